@@ -7,7 +7,7 @@
                            the sockets of the connection goroutines that have not finished); wait for the connection
                            goroutines; return
      accept loop    Accept succeeds (trackConn: refuse when stopping, else track + spawn) / Accept fails (exit, Done)
-     connection     (TLS) handshake fails -> close, untrack, Done | admitted -> AddConn | certificate rejected -> close,
+     connection     (TLS) handshake fails -> close, untrack, Done | let_in -> AddConn | certificate rejected -> close,
                     untrack, Done | loop ends (client gone, QUIT, error, socket closed by Stop) -> RemoveConn, Close,
                     untrack, Done
    Waiting is enabledness: "wait for X" can be taken only when the WaitGroup counter is zero. *)
@@ -47,7 +47,7 @@ Inductive label :=
 | LStartBegin | LStartOpen | LStartSpawnPlain | LStartSpawnTLS
 | LStopBegin | LStopCloseLis | LStopWaitAccept | LStopCloseReg | LStopCloseConns | LStopWaitConns
 | LAcceptOk (lis : nat) | LAcceptFail (lis : nat)
-| LHandshakeFail (id : nat) | LAdmit (id : nat) | LReject (id : nat) | LFinish (id : nat).
+| LHandshakeFail (id : nat) | LEnter (id : nat) | LReject (id : nat) | LFinish (id : nat).
 
 Definition remove_nat (x : nat) (l : list nat) : list nat := filter (fun y => negb (Nat.eqb x y)) l.
 Definition mem_nat (x : nat) (l : list nat) : bool := existsb (Nat.eqb x) l.
@@ -202,7 +202,7 @@ Definition lstep (s : sys) (l : label) : option sys :=
       end
     | None => None
     end
-  | LAdmit id =>
+  | LEnter id =>
     match find_conn id (conns s) with
     | Some c =>
       match ct_st c with
